@@ -43,6 +43,9 @@ def main(c):
         if rc != 0:
             raise vf.ToolError(f"chunk_replay failed rc={rc}: {se[-2000:]}")
         for j in vf.read_jsonl(outp):
+            if "sample" in j:
+                c.sample(j["sample"])
+                continue
             if "summary" in j:
                 c.cov["parts"][f"replay-{prof}"] = j["summary"]
                 c.cov["distinct_nontrivial"] = j["summary"]["cases"]
